@@ -178,6 +178,17 @@ def groups(tier, seed):
                     cs.append({'roots': [[first[0], a, b, m], [second[0], None, None, m]]})
                     cs.append({'roots': [[first[0], None, None, m], ['in:w:only', None, None, None], [second[0], a, b, m]]})
     yield {'tree': same, 'layer': 'same-tail-roots', 'cases': cs}
+    # attribute columns in the select list, entries above the depth window, files next to directories, several roots
+    att = {'a': F(1), 'b': D({'b1': F(1), 'bd': D({'b2': F(1), 'be': D({'b3': F(1)})})}), 'c': F(2), 'd': D({'d1': F(1), 'dd': D({'d2': F(1)})}), 'e': F(3),
+           'r2': D({'z': F(1), 'y': D({'y1': F(1), 'yy': D({'y2': F(1)})})})}
+    cs = []
+    for cols in (['size'], ['is_dir', 'mode'], ['modified'], ['size', 'is_file', 'hardlinks']):
+        for m in (None, 'bfs', 'dfs'):
+            for (a, b) in ((2, None), (3, None), (2, 3), (None, None)):
+                cs.append({'roots': [['dot', a, b, m]], 'cols': cols})
+                cs.append({'roots': [['sub:d', None, None, m], ['sub:b', a, b, m]], 'cols': cols})
+                cs.append({'roots': [['sub:r2', a, b, m], ['sub:b', a, b, m], ['sub:d', a, None, m]], 'cols': cols})
+    yield {'tree': att, 'layer': 'attribute-columns', 'cases': cs}
     # entries with several names (hard links): every name is an entry of its own
     hl = {'a': F(1), 'b': {'t': 'f', 'link': 'a'}, 'd': D({'c': {'t': 'f', 'link': 'a'}, 'e': F(2), 'deep': D({'f': {'t': 'f', 'link': 'd/e'}, 'g': {'t': 'f', 'link': 'a'}})}),
           'z': D({'h': {'t': 'f', 'link': 'd/e'}, 'i': F(3)})}
@@ -449,7 +460,8 @@ def eval_group(env, group, tier):
 
 
 def eval_case(env, tree, holder, troot, topdirs, case, layer, jail_tree):
-    argv = ['path']
+    # (the walk must not depend on what the select list makes the program look up about each entry)
+    argv = ['path' + ''.join(', ' + c_ for c_ in case.get('cols', []))]
     cwdkind = None
     expected = []      # per root: list of (relpath, level)
     subs = []
@@ -507,6 +519,8 @@ def eval_case(env, tree, holder, troot, topdirs, case, layer, jail_tree):
     if o.rc != 0 or o.err:
         return viol('status-or-stderr', dict(o.brief(), argv=argv))
     rows = o.rows()
+    if case.get('cols'):
+        rows = [r_[0] for r_ in (o.rows(1 + len(case['cols'])) or [])]
     if case.get('lossy'):
         lossy = lambda t: t.encode('utf-8', 'surrogateescape').decode('utf-8', 'replace')
         pre = {'dot': './', 'abs': troot + '/', 'rel': 'real/t/'}[case['roots'][0][0]]
